@@ -58,13 +58,13 @@ def plan(prop):
 
 
 def run(prop, tier, only=None, serial=False):
-    timeout = 10000 if tier == "quick" else 60000
+    timeout = 30000 if tier == "quick" else 120000
     jobs = [(k, n, prop, timeout, x, EXTRACT_PATH) for k, n, x in plan(prop) if only is None or only in n]
     t0 = time.time()
     if serial or len(jobs) <= 1:
         results = [job(j) for j in jobs]
     else:
-        with ProcessPoolExecutor(max_workers=min(16, len(jobs))) as ex:
+        with ProcessPoolExecutor(max_workers=min(16, len(jobs)), max_tasks_per_child=1) as ex:
             results = list(ex.map(job, jobs))
     out = {"property": prop, "tier": tier, "results": results, "wall_s": round(time.time() - t0, 2),
            "z3": __import__("z3").get_version_string()}
